@@ -876,5 +876,12 @@ func DeleteVirtualTable(tname *string, orgid int64) error {
 		log.Errorf("DeleteVirtualTable : Error writing to vtableFilename=%v, Error=%v", vTableFileName, errW)
 		return errW
 	}
+
+	// forget the name in memory as well: otherwise an index created again under this name is never
+	// written to the file again (addVirtualTableHelper only appends names that are not in the map)
+	globalTableAccessLock.Lock()
+	delete(allVirtualTables[orgid], *tname)
+	globalTableAccessLock.Unlock()
+
 	return nil
 }
